@@ -18,6 +18,10 @@ Pure(e) ==
     [] e.op = "shr" -> R(PShr(e.k, e.l, e.n))
     [] e.op = "concat" -> R(PConcat(e.l, e.r))
     [] e.op = "split"  -> R(PSplit(e.l, e.k2, e.be))
+    [] e.op = "mul"    -> R(PMul(e.k, e.l, e.r))                       \* the next four: beyond C16 (supplementary check X01)
+    [] e.op = "degree" -> R(PDegree(e.k, e.l))
+    [] e.op = "is_zero" -> R(PIsZero(e.k, e.l))
+    [] e.op = "eq"     -> R(PEq(e.k, e.l, e.r))
     [] e.op = "pack"   -> R(PPack(e.l))
     [] e.op = "pack_be_frame" -> R(<<>>)          \* pack(a, ">L"): only "does not raise, leaves its operand alone" is judged (the harness records no value)
     [] e.op = "dim"    -> R(Len(e.l))
